@@ -335,8 +335,7 @@ class Theory:
             # In compute_only mode, skip when a theorem exists. However,
             # subproofs still need to be checked.
             if seq.rule == "subproof":
-                for s in seq.subproof.items:
-                    self._check_proof_item(prf, s, rpt, no_gaps, compute_only, check_level)
+                self._check_proof_items(prf, seq.subproof.items, seq.id.id, rpt, no_gaps, compute_only, check_level)
             return None
 
         if seq.rule == "theorem":
@@ -352,8 +351,7 @@ class Theory:
             nm, T = seq.args
             res_th = Thm.mk_VAR(Var(nm, T))
         elif seq.rule == "subproof":
-            for s in seq.subproof.items:
-                self._check_proof_item(prf, s, rpt, no_gaps, compute_only, check_level)
+            self._check_proof_items(prf, seq.subproof.items, seq.id.id, rpt, no_gaps, compute_only, check_level)
             res_th = seq.subproof.items[-1].th
         else:
             # Otherwise, apply one of the proof methods. The item must sit at
@@ -416,8 +414,7 @@ class Theory:
                     seq.subproof = macro.expand(seq.id, seq.args, list(zip(seq.prevs, prev_ths)))
                     if rpt is not None:
                         rpt.expand_macro(seq.rule)
-                    for s in seq.subproof.items:
-                        self._check_proof_item(prf, s, rpt, no_gaps, compute_only, check_level)
+                    self._check_proof_items(prf, seq.subproof.items, seq.id.id, rpt, no_gaps, compute_only, check_level)
                     res_th = seq.subproof.items[-1].th
                     seq.subproof = None
             else:
@@ -439,6 +436,18 @@ class Theory:
 
         return None
 
+    def _check_proof_items(self, prf, items, prefix, rpt, no_gaps, compute_only, check_level):
+        """Check the items of one block in order. The i'th item of the block with
+        id prefix must have id prefix.i: an item object placed at another (or a
+        second) position would be found under its own id by find_item, and could
+        then be cited before it is derived.
+
+        """
+        for i, s in enumerate(items):
+            if s.id.id != prefix + (i,):
+                raise CheckProofException("id %s does not match position in proof" % s.id)
+            self._check_proof_item(prf, s, rpt, no_gaps, compute_only, check_level)
+
     def check_proof(self, prf, rpt=None, *, no_gaps=False, compute_only=False, check_level=0):
         """Verify the given proof object. Returns the final theorem if check
         passes. Otherwise throws CheckProofException.
@@ -448,8 +457,7 @@ class Theory:
         
         """
         assert isinstance(prf, Proof), "check_proof"
-        for seq in prf.items:
-            self._check_proof_item(prf, seq, rpt, no_gaps, compute_only, check_level)
+        self._check_proof_items(prf, prf.items, tuple(), rpt, no_gaps, compute_only, check_level)
 
         return prf.items[-1].th
 
